@@ -149,7 +149,8 @@ def apply_exact(op, args, kw):
         return OPS[op][0](*args)
     a = args[0]
     if op == "scale":
-        return ET(a.shape, [x.scale(kw["c"]) for x in a.flat])
+        c = Fraction(kw["c"]) if isinstance(kw["c"], float) else kw["c"]
+        return ET(a.shape, [x.scale(c) for x in a.flat])
     if op == "sumdim":
         return _sumdim(a, kw["dim"])
     if op == "reshape":
@@ -281,31 +282,38 @@ class Program:
         return [[self.exact[o].flat[r].g.get((i, c), 0) for c in range(ni)] for r in range(no)]
 
     # -- torch ----------------------------------------------------------------------------------
-    def build(self, dtype=torch.float64):
-        ts = []
+    def build(self, dtype=torch.float64, narrow=False):
+        """narrow=True: every leaf requiring grad is a FLOAT32 tensor that the computation upcasts at once
+        (`p.to(dtype)`, a master-weights / mixed-precision arrangement): the keys the caller differentiates
+        with respect to have another dtype than everything computed from them"""
+        ts, use = [], []
         for ins in self.instrs:
             if ins[0] == "leaf":
                 _, shape, values, req = ins[:4]
-                t = torch.tensor(values, dtype=dtype).reshape(shape)
+                ldt = torch.float32 if (narrow and req) else dtype
+                t = torch.tensor(values, dtype=ldt).reshape(shape)
                 if len(ins) > 4:
                     t = ts[ins[4]].detach()              # same storage, same data_ptr, a different leaf
                 elif len(shape) >= 2 and len(ts) % 3 == 1:
                     # every third leaf of rank >= 2 is DENSE BUT NOT ROW-MAJOR (column-major storage, as a
                     # transposed parameter or a channels_last weight): same values, same shape, still a leaf
                     rev = tuple(reversed(range(len(shape))))
-                    base = torch.empty(tuple(reversed(shape)), dtype=dtype).permute(rev)
+                    base = torch.empty(tuple(reversed(shape)), dtype=ldt).permute(rev)
                     base.copy_(t)
                     t = base
                 if req:
                     t.requires_grad_(True)
                 ts.append(t)
+                use.append(t.to(dtype) if t.dtype != dtype else t)
             else:
                 _, name, args, kw = ins
-                r = apply_torch(name, [ts[a] for a in args], kw)
+                r = apply_torch(name, [use[a] for a in args], kw)
                 if isinstance(r, list):
                     ts.extend(r)
+                    use.extend(r)
                 else:
                     ts.append(r)
+                    use.append(r)
         assert len(ts) == self.n()
         for t, s in zip(ts, self.shapes):
             assert tuple(t.shape) == tuple(s), (t.shape, s)
@@ -999,8 +1007,13 @@ def snapshot_grads(ts, prog, exact=True):
 
 
 def set_old_grads(ts, prog, old, dtype):
+    """pre-existing .grad fields, with the dtype AND THE MEMORY LAYOUT of their leaf (what an earlier
+    loss.backward() or `p.grad = torch.zeros_like(p)` leaves behind): not contiguous for a column-major leaf"""
     for t, vals in old.items():
-        ts[int(t)].grad = torch.tensor([float(v) for v in vals], dtype=dtype).reshape(prog.shapes[int(t)])
+        leaf = ts[int(t)]
+        g = torch.empty_like(leaf.detach())
+        g.copy_(torch.tensor([float(v) for v in vals], dtype=leaf.dtype).reshape(prog.shapes[int(t)]))
+        leaf.grad = g
 
 
 def oracle_call(prog, call, old):
